@@ -13,8 +13,9 @@ MANIFEST = dict(
          "C05_exited_emitter_silent; re-entrant removals included. Emitter half: C05_emitter_removed_joined_never_puts (after unschedule "
          "took an emitter out of the registry and joined it - started or not - it never puts again), "
          "C05_unscheduled_emitter_unregistered / C05_unregistered_stable / C05_retired_stable / C05_retired_silent (a removed, "
-         "never started emitter is never started later). Its Return-label form (C05_emitter_full) stays a Definition: left is the "
-         "structural ret-invariant that a non-raised Return of unschedule is preceded by its own removal and join events. Tied to /repo by lock-step replay "
+         "never started emitter is never started later). C05_emitter_full (Return-label form, Theorem): a put for w after the non-raised Return of "
+         "unschedule(w) is never by the emitter that call removed and joined - its own GUnsched and GEmJoin events lie between the "
+         "call's begin and its Return. Tied to /repo by lock-step replay "
          "of real BaseObserver runs; the property text is evaluated on the same runs from logical time stamps.",
     note="Trusted: Coq kernel; scheduler twins for threading/queue; interleavings sampled (exhaustive under 2 pre-emptions in thorough).",
     technique="Coq proof (inductive invariants of an LTS) + lock-step correspondence + log-based oracle",
